@@ -269,8 +269,10 @@ impl Sql {
     }
     fn eval(&self, id: i64, v: &Cell, k: &Cell) -> Cell {
         match self {
+            // Int64 arithmetic of DataFusion wraps on overflow (the column named `v` may be a
+            // renamed random Int64 column holding i64::MAX)
             Sql::VPlus(c) => match v {
-                Cell::Int(x) => Cell::Int(x + *c as i128),
+                Cell::Int(x) => Cell::Int((*x as i64).wrapping_add(*c) as i128),
                 _ => Cell::Null,
             },
             Sql::IdMod(m) => Cell::Int((id % m) as i128),
@@ -891,6 +893,11 @@ async fn run_case(cx: &Ctx<'_>, seed: u64, idx: u64, thorough: bool, selftest: b
             small_domain: rng.bool(),
         });
     }
+    for sp in &specs {
+        crate::hist::TABLE_SHAPES.add(&format!("column:{:?}", sp.ty), 1);
+    }
+    crate::hist::TABLE_SHAPES.add(&format!("storage:{version:?}"), 1);
+    crate::hist::TABLE_SHAPES.add(if stable { "row-ids:stable" } else { "row-ids:address" }, 1);
     let mut cols = vec![CCol { name: "id".into(), dt: DataType::Int64, nullable: false, spec: None }];
     for s in &specs {
         cols.push(CCol { name: s.name.clone(), dt: s.ty.arrow(), nullable: s.nullable, spec: Some(s.clone()) });
@@ -1110,6 +1117,7 @@ pub fn run(args: &Args) -> i32 {
         return if g.0 > 0 && g.0 == g.1 { 0 } else { 2 };
     }
     report.set("steps_by_kind", ops.json());
+    report.set("table_shapes", crate::hist::TABLE_SHAPES.json());
     report.set("rejections_and_failures", diag.json());
     report.finish()
 }
